@@ -41,7 +41,7 @@ type c27TrackCfg struct {
 type c27Event struct {
 	Track   int   `json:"t"`
 	DTS     int64 `json:"dts"`
-	NTP     int64 `json:"ntp"` // ns after c27Base
+	NTP     int64 `json:"ntp"` // ms after c27Base
 	NonSync bool  `json:"ns"`
 	Size    int   `json:"sz"`
 }
@@ -137,7 +137,7 @@ func c27Feed(dir string, s *c27Stream) (*c27Obs, error) {
 		err := f.tracks[ev.Track].write(&formatFMP4Sample{
 			Sample: &fmp4.Sample{IsNonSyncSample: ev.NonSync, Payload: bytes.Repeat([]byte{byte(ev.Size)}, ev.Size)},
 			dts:    ev.DTS,
-			ntp:    c27Base.Add(time.Duration(ev.NTP)),
+			ntp:    c27Base.Add(time.Duration(ev.NTP) * time.Millisecond),
 		})
 		switch {
 		case err != nil:
@@ -185,6 +185,9 @@ func c27ReadSeg(p string) (*c27OSeg, error) {
 	for _, b := range in.UserData {
 		if m, ok := b.(*recordstore.Mtxi); ok {
 			seg.Num, seg.StartDTS, seg.StartNTP, found = m.SegmentNumber, m.DTS, m.NTP-c27Base.UnixNano(), true
+			if m.NTP == (time.Time{}).UnixNano() {
+				seg.StartNTP = m.NTP // nextSegmentStartingPos found no track: zero time
+			}
 		}
 	}
 	if !found {
@@ -338,12 +341,12 @@ func c27GenStream(rnd *vRand, k int) *c27Stream {
 				ev.Size = 200 + rnd.Intn(1800) // a big sample
 			}
 			tdur := dts / tc.Rate * int64(time.Second) + dts % tc.Rate * int64(time.Second) / tc.Rate
-			ev.NTP = tdur - t0 + 5*int64(time.Second)
+			ev.NTP = (tdur - t0 + 5*int64(time.Second)) / ms
 			if jitterNTP {
-				ev.NTP += int64(rnd.Intn(41)-20) * ms
+				ev.NTP += int64(rnd.Intn(41) - 20)
 			}
 			if driftAt >= 0 && tdur >= driftAt {
-				ev.NTP += 5200 * ms
+				ev.NTP += 5200
 			}
 			all = append(all, pend{ev: ev, arrival: tdur + lat + int64(rnd.Intn(8))*ms})
 			// next timestamp: regular, sometimes jittered, rarely backwards or a gap
@@ -374,7 +377,11 @@ func c27Bool(b bool) string { return cqBool(b) }
 func c27CoqStream(s *c27Stream) string {
 	tr := cqListOf(s.Tracks, func(t c27TrackCfg) string { return cqPair(cqZ(t.Rate), c27Bool(t.Video)) })
 	ev := cqListOf(s.Events, func(e c27Event) string {
-		return "(" + cqZ(int64(e.Track)) + "," + cqZ(e.DTS) + "," + cqZ(e.NTP) + "," + c27Bool(e.NonSync) + "," + cqZ(int64(e.Size)) + ")"
+		z2 := int64(e.Size) * 2
+		if e.NonSync {
+			z2++
+		}
+		return "(" + cqZ(int64(e.Track)) + "," + cqZ(e.DTS) + "," + cqZ(e.NTP) + "," + cqZ(z2) + ")"
 	})
 	return cqApp("MkStream", tr, cqZ(s.PartDur), cqZ(s.SegDur), cqZ(s.MaxPart), ev)
 }
@@ -384,7 +391,7 @@ func c27CoqObs(o *c27Obs) string {
 		parts := cqListOf(g.Parts, func(p c27OPart) string {
 			trs := cqListOf(p.Tracks, func(t c27OTrack) string {
 				sm := cqListOf(t.Samples, func(x [3]int64) string {
-					return "(" + cqZ(x[0]) + "," + c27Bool(x[1] == 1) + "," + cqZ(x[2]) + ")"
+					return "(" + cqZ(x[0]) + "," + cqZ(2*x[2]+x[1]) + ")"
 				})
 				return "(" + cqZ(int64(t.Track)) + "," + cqU(t.Base) + "," + sm + ")"
 			})
